@@ -91,7 +91,7 @@ def t2s(bdir, s, src, plan, variant="plain", cpu=20):
 def work(a):
     bdir, seed, prof = a
     res = {"runs": 0, "viol": [], "err": None, "case": None, "transparent": 0, "must_error": 0, "rejected": 0, "harmless": 0, "out_ok": 0,
-           "codecs": {}, "boundary_hits": 0}
+           "codecs": {}, "boundary_hits": 0, "tail_exact": 0}
     r = rng(seed, "c15")
 
     def V(clause, detail, **kw):
@@ -109,6 +109,26 @@ def work(a):
                 # aim at the 128 KiB file buffer / 256 KiB xfrm buffer boundaries
                 fill = tarmodel.TEntry(b"zz_fill", "file", content=r.randbytes(max(0, prof["pad_to"] + r.choice([-600, -1, 0, 1, 700]) - len(data))))
                 data, kept = tarmodel.emit_archive(kept + [fill], "pax", r)
+            if prof.get("tail_exact"):
+                # the end-of-archive marker ends exactly on a multiple of the 256 KiB buffer of the decompressing stream: the tar reader
+                # has everything it asks for before the decompressor reaches the check sum at the end of its block / member / frame
+                target = 262144 * prof["tail_exact"]
+                base = [e for e in kept if e.name != b"zz_fill"]
+                flen = max(512, (target - len(data) - 2048) // 512 * 512)
+                for _ in range(4):
+                    fill = tarmodel.TEntry(b"zz_fill", "file", content=r.randbytes(flen))
+                    data, kept = tarmodel.emit_archive(base + [fill], "pax", r)
+                    if len(data) == target or flen + target - len(data) < 512:
+                        break
+                    flen += target - len(data)
+                res["tail_exact"] = int(len(data) == target)
+            if prof.get("tail_pad"):
+                # zero records behind the end-of-archive marker, as every blocking factor > 1 leaves them (GNU tar pads to 10 KiB by
+                # default, -b 2048 to 1 MiB): the tar reader is done before the decompressor has seen the end of its stream
+                fill = tarmodel.TEntry(b"zz_fill", "file", content=r.randbytes(r.randrange(60000, 200000)))
+                data, kept = tarmodel.emit_archive(kept + [fill], "pax", r)
+                data += bytes(512 * r.choice([18, 40, 513, 600, 1100]))
+                res["tail_pad"] = 1
             open(os.path.join(s, "in.tar"), "wb").write(data)
             res["case"] = {"seed": seed, "profile": prof, "archive_bytes": len(data), "members": len(kept)}
             ref = t2s(bdir, s, "in.tar", "seed 1\nsched rr\n")
@@ -141,6 +161,10 @@ def work(a):
                     faults.append(("truncate", r.choice([1, len(blob) // 3, len(blob) // 2, len(blob) - 9, len(blob) - 1, r.randrange(1, len(blob))])))
                 for _ in range(3):
                     faults.append(("flip", r.randrange(min(40, len(blob) - 1), len(blob))))
+                if prof.get("tail_exact") or prof.get("tail_pad"):
+                    # damage whose only witness is the check sum at the end (incompressible content: stored / literal bytes)
+                    for _ in range(4):
+                        faults.append(("flip", r.randrange(len(blob) // 8, len(blob) // 2) if prof.get("tail_pad") else r.randrange(len(blob) // 2, len(blob) - 16)))
                 if codec == "gzip":
                     # a complete member followed by a member that is cut right behind a sync flush placed on an entry boundary: everything
                     # decoded so far is a well-formed shorter archive, only the missing end-of-stream marker says that input is missing
@@ -259,7 +283,7 @@ def work(a):
 
 
 PROFILES = [{"nfiles": 6}, {"nfiles": 5, "xattrs": True}, {"nfiles": 8, "big": True}, {"nfiles": 3, "pad_to": 131072}, {"nfiles": 3, "pad_to": 262144},
-            {"nfiles": 3, "out_boundary": True}]
+            {"nfiles": 3, "out_boundary": True}, {"nfiles": 2, "tail_exact": 1}, {"nfiles": 2, "tail_pad": True}]
 
 
 def replay(spec, bdir=None):
@@ -306,11 +330,15 @@ def main():
                          "harmless_same_image_or_reference_decoder_unaffected": sum(r["harmless"] for r in results)},
         "sqfs2tar_compressed_outputs_verified": sum(r["out_ok"] for r in results),
         "sqfs2tar_outputs_exactly_on_a_256KiB_multiple": sum(r["boundary_hits"] for r in results),
+        "archives_ending_exactly_on_a_256KiB_multiple": sum(r.get("tail_exact", 0) for r in results),
+        "archives_with_zero_records_behind_the_end_marker": sum(r.get("tail_pad", 0) for r in results),
         "components_real": ["tar2sqfs, sqfs2tar, lib/xfrm stream (de)compressors, codec libraries"],
         "components_simulated": ["stdin chunking, EINTR, short stdout writes; stored-byte faults on the compressed stream (truncate, flip)"],
     }
     if cov["sqfs2tar_outputs_exactly_on_a_256KiB_multiple"] == 0:
         rep.harness_error("insufficient reach: no sqfs2tar output landed exactly on a multiple of the 256 KiB stream buffer")
+    if cov["archives_ending_exactly_on_a_256KiB_multiple"] == 0:
+        rep.harness_error("insufficient reach: no archive ended exactly on a multiple of the 256 KiB stream buffer")
     return rep.finish(cov, ["reference decompressors: Python zlib/lzma/bz2 and the libzstd via ctypes",
                             "a flipped byte the reference decompressor does not notice (same decoded archive) is not required to be detected"])
 
